@@ -105,9 +105,46 @@ def owner_of(pass_, role):
     return None
 
 
+WORKER = r'''
+import pickle, sys
+from cvise.passes.abstract import ProcessEventNotifier
+pass_, state, cand = pickle.load(open(sys.argv[1], 'rb'))
+try:
+    res, st = pass_.transform(cand, state, ProcessEventNotifier(None))
+    out = (res.name, open(cand, 'rb').read())
+except Exception as e:
+    out = ('EXC:' + type(e).__name__ + ':' + str(e)[:200], None)
+pickle.dump(out, open(sys.argv[2], 'wb'))
+'''
+
+
+def in_fresh_process(ctx, pass_, state, text, fname):
+    """what a worker that shares no memory with the driver computes from the pickled (pass, cursor)"""
+    import subprocess
+    d = os.path.join(ctx.tmp, 'c11-fresh')
+    if os.path.exists(d):
+        shutil.rmtree(d)
+    os.makedirs(d)
+    cand = os.path.join(d, fname)
+    with open(cand, 'w', newline='') as f:
+        f.write(text)
+    with open(os.path.join(d, 'in.pkl'), 'wb') as f:
+        pickle.dump((pass_, state, cand), f)
+    w = os.path.join(d, 'w.py')
+    with open(w, 'w') as f:
+        f.write(WORKER)
+    env = dict(os.environ, PYTHONPATH=os.environ.get('VERIF_REPO', '/repo'))
+    r = subprocess.run(['/venv/bin/python', w, os.path.join(d, 'in.pkl'), os.path.join(d, 'out.pkl')], capture_output=True, text=True, env=env, timeout=120)
+    if r.returncode != 0:
+        return ('WORKER-DIED:' + r.stderr[-300:], None)
+    return pickle.load(open(os.path.join(d, 'out.pkl'), 'rb'))
+
+
 class Explorer:
     def __init__(self, ctx, sums):
         self.ctx, self.sums = ctx, sums
+        self.fresh_budget = 25 if ctx.quick() else 250
+        self.recorded = []       # (label, mk, text, fname, cursor snapshot bytes, result, candidate bytes)
         self.d = os.path.join(ctx.tmp, 'c11')
         if os.path.exists(self.d):
             shutil.rmtree(self.d)
@@ -176,6 +213,8 @@ class Explorer:
         except Exception as e:
             ctx.count(f'new-raises:{type(e).__name__}')
             return
+        with open(path, newline='') as f:
+            text = f.read()          # new() may have reformatted the file (lines passes)
         hist = []
         handed = []          # (cursor object, snapshot) of candidates already handed out and still in flight
         for k in range(steps):
@@ -224,7 +263,19 @@ class Explorer:
             resn, cand_bytes, _ = outs[0]
             if resn == 'OK':
                 ctx.nontriv(repr((label, text, sb)))
+                if 'clang' not in label and 'cannot be started' not in label:
+                    if len(self.recorded) < 600:
+                        self.recorded.append((label, mk, text, fname, pickle.dumps(state), resn, cand_bytes))
+                    if self.fresh_budget > 0 and (k == 0 or rnd.random() < 0.1):
+                        self.fresh_budget -= 1
+                        fr = in_fresh_process(ctx, p, state, text, fname)
+                        ctx.count('fresh-process-worker')
+                        if fr != (resn, cand_bytes):
+                            ctx.violation(f'cursor-does-not-travel:{label}', f'{label}: a worker process started afresh computes {str(fr)[:200]} from the pickled (pass, cursor), the driver process computes ({resn}, {cand_bytes[:80]!r})', rep)
+                            return
             ctx.count(f'{label.split("::")[0]}:{resn}')
+            if resn == 'INVALID' and label.startswith('peep') and len(self.recorded) < 600 and rnd.random() < 0.3:
+                self.recorded.append((label, mk, text, fname, pickle.dumps(state), resn, cand_bytes))
             if resn in ('STOP', 'ERROR') or resn.startswith('EXC'):
                 break
             # --- advance must leave the cursor it is given (and every other handed-out cursor) untouched
@@ -298,14 +349,49 @@ def explore(ctx):
             texts = [t for t in texts if len(t) <= 14][: (8 if ctx.quick() else 40)]
         for text in texts:
             for rep_ in range(1 if ctx.quick() else 3):
-                ex.explore(label, lambda: c03.mk(cls, arg), text, rnd, steps=(25 if kind != 'peep' else 60))
+                ex.explore(label, lambda cls=cls, arg=arg: c03.mk(cls, arg), text, rnd, steps=(25 if kind != 'peep' else 60))
     # long rejection streaks on texts with many instances (cursors that compact / trim shared structure late)
     many = ''.join(f' {i + 10}, 0x{i + 16:x};' for i in range(45)) + '\n'
     manyb = ''.join('(a)' if i % 2 else '{b}' for i in range(90))
     for entry in table:
         kind, name, arg, cls = entry
         if kind in ('list', 'pos') and (name != 'balanced' or arg in ('parens', 'curly-only')):
-            ex.explore(f'{name}::{arg}', lambda: c03.mk(cls, arg), many if kind == 'list' else manyb, random.Random(1), steps=100, accept_prob=0.0)
+            ex.explore(f'{name}::{arg}', lambda cls=cls, arg=arg: c03.mk(cls, arg), many if kind == 'list' else manyb, random.Random(1), steps=100, accept_prob=0.0)
+    # the candidate is a function of (file, cursor, pass argument): a pass object that has since seen other files in new()
+    # (the next test case of a multi-file run) must still produce the recorded candidates
+    others = [',x w,', 'a', ' 0x1, (b) ', 'zz,', '#include <q>\n\n/* c */\n']
+    by_label = {}
+    for rec in ex.recorded:
+        by_label.setdefault(rec[0], []).append(rec)
+    for label, recs in by_label.items():
+        for rec in recs[:: max(1, len(recs) // ((30 if label.startswith('peep') else 4) if ctx.quick() else 60))]:
+            _l, mk_, text, fname, st_bytes, resn, cand_bytes = rec
+            for other in others[: (2 if ctx.quick() else 5)]:
+                p2 = mk_()
+                dd = os.path.join(ctx.tmp, 'c11-cross')
+                os.makedirs(dd, exist_ok=True)
+                op = os.path.join(dd, 'other.c')
+                with open(op, 'w') as f:
+                    f.write(other)
+                try:
+                    p2.new(op, None)
+                except Exception:
+                    continue
+                cp_ = os.path.join(dd, fname)
+                with open(cp_, 'w', newline='') as f:
+                    f.write(text)
+                from cvise.passes.abstract import ProcessEventNotifier
+                try:
+                    res, _st = p2.transform(cp_, pickle.loads(st_bytes), ProcessEventNotifier(None))
+                    got = (res.name, open(cp_, 'rb').read())
+                except Exception as e:
+                    got = ('EXC:' + type(e).__name__, None)
+                ctx.evaluations += 1
+                ctx.count('cross-file-pass-object')
+                if got != (resn, cand_bytes):
+                    ctx.violation(f'depends-on-earlier-new:{label}', f'{label}: after new() on another file ({other!r}) the same (file {text!r}, cursor) gives {str(got)[:160]} instead of ({resn}, {cand_bytes[:80]!r})',
+                                  {'pass': label, 'text': text})
+                    break
     # passes that call external tools: stand-ins
     from cvise.passes.ifs import IfPass
     from props.c05 import UNIFDEF
@@ -345,7 +431,7 @@ def replay(ctx, payload):
     if r['pass'] in table:
         kind, name, arg, cls = table[r['pass']]
         for s in range(20):
-            ex.explore(r['pass'], lambda: c03.mk(cls, arg), r['text'], random.Random(s))
+            ex.explore(r['pass'], lambda cls=cls, arg=arg: c03.mk(cls, arg), r['text'], random.Random(s))
     else:
         print('replay: run ./check C11 (external-tool pass)')
 
